@@ -11,6 +11,8 @@ RULES = {"C06.R1", "C06.R4", "C06.R5"}
 
 
 def extra(res, facts, entries, protos):
+    # R7: a clone of the builder / carrier types keeps the implicit assertion (and everything else) set on the original
+    _proto.clone_rule(res, "C06.R7", facts)
     # R2 non-interference with the token text: on producer sides the only use of self.implicit_assertion is the PAE component
     # (decided on the token's symbolic description - C06.S3 - when the semantic engine followed every path)
     for (role, vp), pr in sorted(protos.items()):
